@@ -26,6 +26,7 @@ func c06Build(id int, raw json.RawMessage) *Job {
 	if json.Unmarshal(raw, &tc) != nil {
 		return nil
 	}
+	scMarkAttr(tc.Items) // every second initialised local that is never assigned again carries <const>
 	r := scRenderMode(tc.Items, scModeOf(raw, scSeed))
 	pc := &proto.Case{ID: id, Files: r.files(), Init: json.RawMessage(allOnLocal)}
 	scMaybeProject(pc, r)
@@ -322,6 +323,14 @@ func checkC06(c *Ctx) {
 	scKinds = `{"local","local2","use","assign","assign2","do","while","if","repeat","fornum","forin","lfunc","lefunc","gfunc","meth","cfunc","file","ret","require"}`
 	c.Rep.Assumptions = append(c.Rep.Assumptions, "generated domain leaves out the trigger constructs of Dev_EmptyLocalReboundHidesDecl and Dev_GlobalWriteInsideOwnFunction and of the nested-then-shallower global definition order (Scope.tla Avoid = {hide, selfw, gshallow}); those constructs are judged with exact predictions in C05")
 	scopeRuns(c, p, c06Build, func(j *Job, r *proto.Result) { c06Judge(c, j, r) })
+	wideGlobal(c, p, "C06", func(want, refs1, refs2, ren []string, defs map[string][]string, raw json.RawMessage) {
+		for i, got := range [][]string{refs1, refs2} {
+			if strings.Join(got, " ") != strings.Join(want, " ") {
+				c.Rep.Violation(raw, fmt.Sprintf("a global defined in def.lua and used in 27 further files (one of them created after start-up): find-references (asked at %s) returns %d locations {%s}, the occurrences are the %d {%s}", []string{"the declaration", "a use"}[i], len(got), clip(strings.Join(got, " "), 400), len(want), clip(strings.Join(want, " "), 400)))
+				return
+			}
+		}
+	})
 	// Project.tla: workspaces analysed as a project (entry file + what it requires), both modes
 	projectRuns(c, p, 0, "references")
 	c.poolStats(p)
